@@ -629,6 +629,12 @@ static void monitors(const desc_t *d, const scn_t *s) {
                 size_t lim = dmaxb;
                 for (size_t i = X.resb; i < lim; i++) if (dp[i] != bd[i]) { rule = "bytes-beyond-result-changed"; at = i; break; }
             }
+            else if (d->fam == FAM_MEMCCPY && X.resb && X.resb < C.slen && dp[X.resb - 1] == (uint8_t)C.val) {
+                /* the stop character was found before n: "copies ... stopping when the character c is found"; with null slack
+                   "the rest (max. n bytes, not dmax) is cleared", without it nothing behind the stop character is stored */
+                const uint8_t *bd = snap_of(dp);
+                for (size_t i = X.resb; i < C.slen && i < dmaxb; i++) if (g_noslack ? dp[i] != bd[i] : dp[i] != 0) { rule = "copied-on-behind-the-stop-character"; at = i; break; }
+            }
             if (!strcmp(d->name, "strnterminate_s") && !rule && C.n != X.reslen) rule = "returned-length-wrong";
             if (rule && want("C06")) {
                 snprintf(key, sizeof key, "%s|%s|%s|%s|%s|%s", d->name, rule, slcls(d, s), szcls(s->dmax), bosname(s->bos), g_cfg);
@@ -834,8 +840,9 @@ static void gen_main(int fi, visit_fn visit) {
     for (int dm = 0; dm < 4; dm++)            /* 0: zero, 1: valid(8), 2: limit, 3: limit+1 */
     for (int snull = 0; snull < 2; snull++)
     for (int sl = 0; sl < 5; sl++)            /* 0: zero 1: valid(3) 2: limit+1 3: > srcbos / > dmax 4: > srcbos but <= dmax */
-    for (int bos = 0; bos < 2; bos++) {
+    for (int bos = 0; bos < 3; bos++) {       /* 2: the known object is larger than dmax; what lies behind dmax stays the caller's */
         if (!has_src && snull) continue;
+        if (bos == 2 && (dm != 1 || dnull)) continue;
         if (!has_slen && sl != 1) continue;
         base_scn(d, &s, fi);
         s.dnull = dnull; s.snull = snull; s.bos = bos;
@@ -843,7 +850,7 @@ static void gen_main(int fi, visit_fn visit) {
         s.dmax = dm == 0 ? 0 : dm == 1 ? dm_el * ew / d->dunit : dm == 2 ? d->dlimit : d->dlimit + 1;
         if (dm == 2 && d->dlimit * (size_t)d->dunit > SLOT_BYTES) continue;   /* memory limits are sampled elsewhere */
         if (dm == 2) dm_el = d->dlimit * d->dunit / ew;
-        s.dobj = dm_el * ew;
+        s.dobj = dm_el * ew + (bos == 2 ? 8 * ew : 0);
         if (dm == 3) { if (bos) { s.dobj = 8 * ew; } else s.untruth = (dnull || (has_slen && sl == 0)) ? 0 : 1; }
         if (dm == 3 && !bos && !dnull && has_slen && sl == 0) continue;   /* would need a real object of limit+1 elements */
         s.dkind = (d->fl & F_DESTSTR) ? 1 : 0; s.dlen = 2;
